@@ -107,6 +107,20 @@ func (call *CallStm) checkMappings(global *Ast, pipeline *Pipeline) error {
 	if err == nil && call.Mapping != nil {
 		switch call.Mapping.(type) {
 		case *placeholderMapSource, *placeholderArrayMapSource, *placeholderMapMapSource:
+			// The call this one is mapped over failed to compile (which
+			// has been reported already), leaving its own source unknown.
+			err = &wrapError{
+				innerError: &IncompatibleTypeError{
+					Message: "SplitTypeMismatch: cannot determine what call " +
+						call.Id + " is mapped over",
+				},
+				loc: call.Node.Loc,
+			}
+		}
+	}
+	if err == nil && call.Mapping != nil {
+		switch call.Mapping.(type) {
+		case *placeholderMapSource, *placeholderArrayMapSource, *placeholderMapMapSource:
 			panic(call.Mapping)
 		}
 	}
